@@ -68,7 +68,9 @@ reg("np_eci_chunk", "eci", ["C05"], profiles=["dev", "rel"], cap=900, bounds="an
 reg("str_latin1_char", "data", ["C14"], cap=900, bounds="one arbitrary Unicode scalar value (all 1,112,064)", encodes=["data::utf8_to_latin1"])
 reg("str_latin1_byte", "data", ["C14"], cap=300, bounds="one byte, all 256 values", encodes=["data::latin1_to_utf8", "data::latin1_to_utf8_mut"])
 reg("str_latin1_two", "data", ["C14"], cap=1800, tier=T, bounds="two printable Latin-1 bytes, round trip through both helpers", encodes=["data::latin1_to_utf8", "data::utf8_to_latin1"])
-reg("str_dispatch_1", "lib", ["C14"], cap=1200, stubbing=True,
+reg("str_dispatch_lo", "lib", ["C14"], cap=900, stubbing=True,
+    bounds="every one-character string with the character in U+0000..=U+00FF; DataMatrixBuilder::encode_eci replaced by a recording stub", encodes=["DataMatrixBuilder::encode_str", "data::utf8_to_latin1"])
+reg("str_dispatch_1", "lib", ["C14"], cap=2400, tier=T, stubbing=True,
     bounds="every one-character string (any Unicode scalar value); DataMatrixBuilder::encode_eci replaced by a recording stub", encodes=["DataMatrixBuilder::encode_str", "data::utf8_to_latin1"])
 reg("str_dispatch", "lib", ["C14"], cap=3600, mem_gb=20, tier=T, role="attempt", stubbing=True,
     bounds="every string of 1..=2 arbitrary Unicode scalar values; same stub", encodes=["DataMatrixBuilder::encode_str", "data::utf8_to_latin1"])
@@ -114,9 +116,9 @@ reg("cat_ord", "sym", ["C12"], cap=600, bounds="three symbolic indices over all 
 reg("cat_all_once", "sym", ["C12"], cap=300, bounds="closed term: SYMBOL_SIZES x symbolic variant index: each variant once, strictly ascending", encodes=["symbol_size::SYMBOL_SIZES"])
 reg("cat_caps_table", "sym", ["C12", "C02"], cap=300, role="oracle-validation", bounds="symbolic index over all 48 sizes: capacities <= 43 are in the harness table", encodes=SYM[:1])
 FILT = ["SymbolList::enforce_width_in", "SymbolList::enforce_height_in", "SymbolList::with_whitelist", "SymbolList::contains"]
-for n in ("w_ei", "w_ie", "w_uu", "w_eu", "w_ui", "h_ei", "h_ie", "h_eu", "h_ue"):
-    reg("cat_filter_" + n, "sym", ["C12"], cap=900,
-        bounds="one-symbol list, %s filter, bound kinds (lower,upper) = %s (u unbounded, i included, e excluded), both bound values symbolic 0..=40" % ("width" if n[0] == "w" else "height", n[2:]), encodes=FILT)
+reg("cat_filter_w", "sym", ["C12"], cap=1200, bounds="closed terms: one-symbol list [Rect8x18], enforce_width_in for all 7x7 combinations of bound kinds (unbounded/included/excluded) x values {17,18,19} at both ends", encodes=FILT)
+reg("cat_filter_h", "sym", ["C12"], cap=1200, bounds="closed terms: one-symbol list [Rect12x26], enforce_height_in for all 7x7 combinations of bound kinds x values {11,12,13}", encodes=FILT)
+reg("cat_filter_axes", "sym", ["C12"], cap=600, bounds="closed terms: width vs height axes on Rect8x18", encodes=FILT)
 reg("cat_filter_sq", "sym", ["C12"], cap=600, bounds="enforce_square on a square and a rectangular one-symbol list", encodes=["SymbolList::enforce_square"])
 reg("cat_filter_re", "sym", ["C12"], cap=600, bounds="enforce_rectangular on a square and a rectangular one-symbol list", encodes=["SymbolList::enforce_rectangular"])
 for n, lst in (("0", "the empty list"), ("1", "[Square14]"), ("2", "[Square144, Square10]"), ("3", "[Square12, Rect8x18, Square10]")):
